@@ -81,6 +81,9 @@ func c03Exec(c *Case, generate bool) (*Violation, *execStats) {
 			if ro.Intn(3) == 0 {
 				op.A["fanout"] = "1"
 			}
+			if ro.Intn(4) == 0 {
+				op.A["empties"] = "1"
+			}
 			c.Ops = append(c.Ops, op)
 		} else {
 			op = c.Ops[i]
@@ -243,6 +246,14 @@ func c03StepView(s *treeState, op Op, cur ygot.GoStruct, replica *ygot.GoStruct,
 	next := model.Clone(cur).(ygot.GoStruct)
 	if op.arg("self") != "1" {
 		eg.Mutate(reflect.ValueOf(next).Elem(), s.sch, 0, editParams(op.arg("rate")))
+	}
+	if op.arg("empties") == "1" {
+		// keyed and ordered lists that are absent from the new version are sometimes present
+		// as allocated, empty lists instead (what emptying a list with Delete leaves behind):
+		// the same YANG content, so the same diff
+		if injectEmpties(reflect.ValueOf(next), &re) > 0 {
+			s.st.Probes["version_with_empty_non_nil_lists"]++
+		}
 	}
 	if op.arg("share") == "1" {
 		// the two versions share memory the way path-copied (copy-on-write) trees do: equal
